@@ -499,3 +499,109 @@ def gen_sadump(rng, big=False):
             "key": "sadump %s bs%d v%d cpus%d %s disks%d" % (kind, bs, ver, ncpu,
                                                              "x86_64" if any(lma) else "ia32", ndisk)}
     return lay, entries, info
+
+
+# ---------------------------------------------------------------------------
+# LKCD
+# ---------------------------------------------------------------------------
+
+def write_stream(path, pgsz, recs):
+    """recs: (pfn, flags, payload, content) in stream order."""
+    with open(path, "wb") as f:
+        f.write(struct.pack("<II", pgsz, len(recs)))
+        for pfn, flags, payload, content in recs:
+            f.write(struct.pack("<QII", pfn, flags, len(payload)) + payload + content)
+
+
+LKCD_MACHINES = [("x86_64", 8, 0), ("i686", 4, 0), ("ppc64", 8, 1), ("s390x", 8, 1), ("aarch64", 8, 0)]
+
+
+def lkcd_pfns(rng, pgsz):
+    """Page frames with the shapes the block index cares about: dense runs, gaps up to and
+    beyond MAX_PFN_GAP (15), runs crossing a level-3 table (4096 frames), far-away frames."""
+    s = set()
+    want = rng.randint(0, 14 if pgsz <= 8192 else 6)
+    bases = [0, 1, 10, 4090, 4095, 4096, 8190, 1 << 22, (1 << 22) - 3, 0x12345]
+    guard = 0
+    while len(s) < want and guard < 100:
+        guard += 1
+        base = rng.choice(bases) + rng.choice([0, 0, 1, 5, 14, 15, 16, 17, 40])
+        step = rng.choice([1, 1, 2, 7, 15, 16, 17])
+        for i in range(rng.choice([1, 2, 3, 5])):
+            if len(s) < want:
+                s.add(base + i * step)
+    return sorted(s)
+
+
+def gen_lkcd(rng, big=False):
+    mach, ptr, be = rng.choice(LKCD_MACHINES)
+    ver = rng.choice([1, 2, 3, 5, 6, 7, 8, 9, 10])
+    shift = rng.choice([12, 12, 12, 13, 14, 16])
+    pgsz = 1 << shift
+    comp = rng.choice([1, 2]) if ver >= 5 else 1
+    h64 = rng.randint(0, 1)
+    pfns = lkcd_pfns(rng, pgsz)
+    order = list(pfns)
+    k = rng.random()
+    if k < 0.35:
+        pass                                   # ascending
+    elif k < 0.7:
+        rng.shuffle(order)
+    else:                                      # a few ascending chunks, interleaved
+        cut = sorted(rng.sample(range(len(order) + 1), min(2, len(order) + 1)))
+        parts = [order[:cut[0]], order[cut[0]:cut[-1]], order[cut[-1]:]]
+        rng.shuffle(parts)
+        order = [p for part in parts for p in part]
+    recs = []
+    meths = {}
+    for p in order:
+        content = page_content(rng, pgsz)
+        if rng.random() < 0.35:
+            recs.append((p, 1, content, content))                 # DUMP_RAW
+            meths[p] = "raw"
+        else:
+            payload = rle_compress(content) if comp == 1 else zlib_compress(content, rng.choice([0, 6]))
+            if len(payload) > pgsz:         # the library reads compressed data into a page-sized buffer
+                recs.append((p, 1, content, content))
+                meths[p] = "raw"
+            else:
+                recs.append((p, 2, payload, content))
+                meths[p] = "rle" if comp == 1 else "gzip"
+    def f(s):
+        b = s.encode()
+        return b + bytes(65 - len(b))
+    uts = f("Linux") + f("node") + f("2.6.5-test") + f("#1 SMP") + f(mach) + f("(none)")
+    dataoff = 65536 if ver < 9 else rng.choice([65536, 65536, 4096, 131072, 1000])
+    lay = {"be": be, "ver": hx(ver), "mclx": hx(rng.choice([0, 0, 1 << 31, 1 << 30])), "h64": h64,
+           "pgsz": hx(pgsz), "comp": hx(comp), "uts": hexb(uts), "dataoff": hx(dataoff),
+           "memsize": hx(0x10000000), "ptr": hx(ptr)}
+    info = {"pgsz": pgsz, "pfns": pfns, "methods": meths, "stream": True,
+            "maxpfn": (max(pfns) + 1) if pfns else 0,
+            "key": "lkcd v%d be%d h%d pg%d comp%d %s" % (ver, be, 64 if h64 else 32, shift, comp,
+                                                         "asc" if k < 0.35 else "shuf" if k < 0.7 else "chunks")}
+    return lay, recs, info
+
+
+def lkcd_requests(rng, info):
+    """Reads in an order unrelated to the stream order; absent frames force full scans."""
+    pgsz, pfns = info["pgsz"], info["pfns"]
+    want = list(pfns)
+    near = set()
+    for p in pfns:
+        near |= {p - 1, p + 1, p + 16}
+    want += [p for p in near if p >= 0 and p not in pfns][:10]
+    rng.shuffle(want)
+    reqs = ["RM:%x:%x" % (p * pgsz, pgsz) for p in want]
+    for p in pfns[:6]:
+        k = rng.choice([1, 2, 9, pgsz // 2])
+        reqs.append("RM:%x:%x" % ((p + 1) * pgsz - k, 2 * k))
+        reqs.append("RM:%x:%x" % (p * pgsz + rng.randrange(pgsz), rng.randint(0, 64)))
+    # read everything again once the index is complete
+    again = list(pfns)
+    rng.shuffle(again)
+    reqs += ["RM:%x:%x" % (p * pgsz, pgsz) for p in again]
+    # the geometry request scans the whole stream: before, in the middle of, or after the reads
+    pos = rng.choice([0, len(reqs) // 2, len(reqs)])
+    reqs.insert(pos, "G")
+    reqs.insert(rng.randrange(len(reqs) + 1), "Z1")
+    return reqs
